@@ -55,7 +55,7 @@ InRail ==
             IN CASE v = "A" -> Add(pre \o <<Ev("InputRailFinished", i, -1, "", <<>>, <<>>)>>) /\ i' = i + 1 /\ pc' = pc /\ uver' = uver
                  [] v = "W" -> Add(pre \o <<Ev("InputRailFinished", i, -1, "", <<>>, <<>>)>>) /\ i' = i + 1 /\ pc' = pc /\ uver' = uver + 1
                  [] v = "R" -> Add(pre \o Blocked("in")) /\ pc' = "reply" /\ UNCHANGED <<i, uver>>
-                 [] v = "F" -> Add(pre \o Faulted) /\ pc' = "reply" /\ UNCHANGED <<i, uver>>
+                 [] v \in {"F", "G"} -> Add(pre \o Faulted) /\ pc' = "reply" /\ UNCHANGED <<i, uver>>
   /\ UNCHANGED <<script, t, bver>>
 
 Llm(task) == Ev("llm", -1, -1, task, UMark, <<>>)
@@ -97,7 +97,7 @@ OutRail ==
             IN CASE v = "A" -> Add(pre \o <<Ev("OutputRailFinished", i, -1, "", <<>>, <<>>)>>) /\ i' = i + 1 /\ pc' = pc /\ bver' = bver
                  [] v = "W" -> Add(pre \o <<Ev("OutputRailFinished", i, -1, "", <<>>, <<>>)>>) /\ i' = i + 1 /\ pc' = pc /\ bver' = bver + 1
                  [] v = "R" -> Add(pre \o Blocked("out")) /\ pc' = "reply" /\ UNCHANGED <<i, bver>>
-                 [] v = "F" -> Add(pre \o Faulted) /\ pc' = "reply" /\ UNCHANGED <<i, bver>>
+                 [] v \in {"F", "G"} -> Add(pre \o Faulted) /\ pc' = "reply" /\ UNCHANGED <<i, bver>>
   /\ UNCHANGED <<script, t, uver>>
 
 (* the reply returned by generate: joined utterances, or the exception event *)
